@@ -5,7 +5,7 @@ import os
 ROOT = os.path.dirname(os.path.dirname(os.path.abspath(__file__)))
 
 HOOK_COMMITS = ["7a8ba4f"]
-FIX_COMMITS = ["5737839", "2d5e69c", "bf43ee9", "0b45cfb", "823a22a", "5be6b47"]
+FIX_COMMITS = ["5737839", "2d5e69c", "bf43ee9", "0b45cfb", "823a22a", "a9e432f", "5be6b47"]
 
 CHECKS = {
     "C01": dict(
@@ -138,6 +138,17 @@ CHECKS["C16"] = dict(
          "diagrams by exact equality with the conjugate transpose (J16).",
     note="Trusted: TLC, projection of ZX boxes (phases must lie on the 1/16 grid, else machinery failure).",
     ref="5/C16", technique="TLA+ exact-arithmetic spec + TLC, translation validation of recorded ZX images")
+
+CHECKS["C17"] = dict(
+    text="Pyzx.tla gives the meaning of a pyzx graph (sum over one bit per spider, Hadamard edges, X spiders as "
+         "H-conjugated Z spiders) and transcribes to_pyzx's scan machine; TLC proves that the machine preserves the "
+         "meaning on every simply-wired diagram of the builder. Graphs exported by the real to_pyzx are projected "
+         "and must denote ZXSem of the diagram exactly, inputs/outputs in order, scalar included; graphs (exported, "
+         "relabelled, ill-formed boundaries) are imported with the real from_pyzx and the result must be well-typed, "
+         "with the right wire counts and denote the graph exactly, or be refused with ValueError (J17). GraphSem is "
+         "cross-checked against pyzx.tensorfy on every exported graph.",
+    note="Trusted: TLC, graph/diagram projections, the in-process pyzx adapter.",
+    ref="5/C17", technique="TLA+ exact-arithmetic spec + TLC, translation validation both ways")
 
 NOT_YET = {}
 
